@@ -4,6 +4,7 @@ Import ListNotations.
 From GS Require Import Num EventLoop Kernel Sim.
 From GS Require Import NumZ Sim ExampleKit.
 From GS.Proofs Require Import Aux SimP SimP3 TraceSpec TimerSpec.
+From GS.Proofs Require Import MoveSpec SchedSpec.
 
 Section C08.
 Context {F : Type} (A : ArithOps F) {PS : Type} (cfg : scfg F)
@@ -105,6 +106,18 @@ Proof.
   simpl. apply Nat.ltb_lt in Hn. rewrite Hn. reflexivity.
 Qed.
 
+(** WHOLE RUNS: every delivery event of a run is one that an accepted unicast / broadcast of the trace calls for --
+    one per addressee (the named node; every OTHER node for a broadcast, never the sender), due at send time + delay,
+    in request order -- and every such request is answered by a scheduling item before the next event runs
+    (acceptor of Proofs/SchedSpec.v, stated in full as C09_whole_run_scheduling_justified).  With C02 (each accepted
+    event runs exactly once) and the callback-cause theorems above: delivered exactly once. *)
+Theorem C08_whole_run_scheduling_justified (c : kcfg F) fuel ps0 :
+  let '(s0, i0) := sim_start A cfg ps0 in
+  let '(s', items, fin) := k_run A (sim_hooks A cfg react) c fuel s0 in
+  accept (x_next A cfg) x_ok (x0 A cfg) (i0 ++ items) /\
+  after (x_next A cfg) (x0 A cfg) (i0 ++ items) = x_abs (el_now (k_el s')) (k_h s').
+Proof. exact (whole_run_scheduled A cfg react c fuel ps0). Qed.
+
 End C08.
 
 (** Non-vacuity: three nodes in range, delay 2: a unicast reaches only its addressee, a broadcast every
@@ -130,3 +143,4 @@ Print Assumptions C08_delivery_callback.
 Print Assumptions C08_only_sender_creates_deliveries.
 Print Assumptions C08_packet_callback_only_from_delivery_event.
 Print Assumptions C08_delivery_event_calls_back.
+Print Assumptions C08_whole_run_scheduling_justified.
